@@ -40,6 +40,22 @@ def fileOfJson (j : Json) : Except String FileJ := do
   let img : Nat → Nat → List Float := fun h r => (((imgs.getD h []).getD r []).map Float.ofInt)
   pure ⟨plate, mjd, ⟨npix, nfib, c0, c1, img, tableOf plug, zans.map tableOf, tsobj.map tableOf⟩⟩
 
+/-- spZall of a file: `{"nper": DIMS0, "rows": [...]}` or null -/
+def zallOfJson (j : Json) : Except String (Nat × Nat × Option (ZAll Row)) := do
+  let plate ← J.fNat j "plate"
+  let mjd ← J.fNat j "mjd"
+  let z ← J.fOpt (fun z => do
+    let nper ← J.fNat z "nper"
+    let rows ← J.list (J.list J.int) (← J.fld z "rows")
+    pure (⟨nper, rows.length, tableOf rows⟩ : ZAll Row)) j "zall"
+  pure (plate, mjd, z)
+
+def zsurveyOf (zs : List (Nat × Nat × Option (ZAll Row))) : ZSurvey Row := fun p m =>
+  ((zs.find? (fun f => f.1 == p && f.2.1 == m)).map (·.2.2)).join
+
+def plateListRow (j : Json) : Except String PlateListRow := do
+  pure ⟨← J.fNat j "plate", ← J.fNat j "mjd", ← J.fStr j "run2d", ← J.fStr j "run1d", ← J.fNat j "ntotal"⟩
+
 def surveyOf (fs : List FileJ) : Survey Float Row := fun p m =>
   (fs.find? (fun f => f.plate == p && f.mjd == m)).map (·.file)
 
@@ -76,6 +92,25 @@ def handle (j : Json) : Except String Json := do
       let mjd ← J.fOpt (argOf J.nat) q "mjd"
       let fiber ← argOf J.int (← J.fld q "fiber")
       pure (resultJ (readspec argsortImpl S files platein mjd fiber)))
+    pure (Json.arr out.toArray)
+  | "readspecx" =>
+    -- readspec with znum= / fiber=None: tree files may carry "zall", the tree a "platelist"
+    let tj ← J.fld j "tree"
+    let fs ← J.list fileOfJson tj
+    let zs ← J.list zallOfJson tj
+    let S := surveyOf fs
+    let Z := zsurveyOf zs
+    let files := fs.map (fun f => (f.plate, f.mjd))
+    let platelist ← J.fOpt (J.list plateListRow) j "platelist"
+    let run2d ← J.fStr j "run2d"
+    let run1d ← J.fStr j "run1d"
+    let reqs ← J.arr (← J.fld j "reqs")
+    let out ← reqs.toList.mapM (fun q => do
+      let platein ← argOf J.nat (← J.fld q "plate")
+      let mjd ← J.fOpt (argOf J.nat) q "mjd"
+      let fiber ← J.fOpt (argOf J.int) q "fiber"
+      let znum ← J.fOpt J.int q "znum"
+      pure (resultJ (readspecX argsortImpl S Z files platelist run2d run1d platein mjd fiber znum)))
     pure (Json.arr out.toArray)
   | "latest" =>
     let files ← J.list (fun p => do
